@@ -3193,6 +3193,15 @@ def _compare_summaries(code, ref, near=0.7):
         all_code |= _atoms(f_)
     for f_ in gb.values():
         all_ref |= _atoms(f_)
+    # cases that moved between `return X` and `return X.copy()` (public_copy, copy, clone: a method whose result equals its
+    # receiver where the receiver already is what the copy would be) are no verdict: whether the copy is observable is a fact
+    # about that method, not about this function
+    cond_heads = [d[2].rsplit(" when ", 1)[0] for d in details if d[0] == "condition" and d[1] == "exit"]
+    if len(cond_heads) >= 2 and len(cond_heads) == sum(1 for d in details if d[0] in ("condition", "differs")):
+        import re as _re
+        strip = lambda h: _re.sub(r"\.(public_copy|copy|clone|__copy__)\(\)$", "", h)
+        if len({strip(h) for h in cond_heads}) < len(set(cond_heads)):
+            return "near", details
     for d in details:
         if d[0] == "condition" and any(k2[0] == d[1] for k2 in unmatched_code) and not _adds_only(ga, gb, d, all_code, all_ref):
             return "near", details      # the cases this component lost may have gone to a component the reference does not have
